@@ -1379,7 +1379,61 @@ fn build_case(rng: &mut Rng, tier: Tier, m: &ModuleSpec, offsets: &[u32], others
             push("reqbadid", "/etc/passwd".to_string(), "badid");
         }
     }
-    rng.shuffle(&mut reqs);
+    // ---- the body field by field (`reqx`): other library name, id nobody has, id `to_debug_id` rejects, and the
+    // `moduleOffset` member as a string (hex.rs:23-37): prefix, sign, case, leading zeros, overflow, junk
+    let mut lines: Vec<String> = reqs.iter().map(|(op, o, f, tag)| format!("{op} {o} {} {tag}", hx(f))).collect();
+    for (i, &o) in offsets.iter().enumerate() {
+        let fname = owns[i].first().map(api_of).unwrap_or_else(|| "/etc/passwd".to_string());
+        let good = format!("0x{o:x}");
+        if rng.chance(1, 2) {
+            let s = match rng.below(18) {
+                0 => format!("0x{o:X}"),
+                1 => format!("0x0000000{o:x}"),
+                2 => format!("0x+{o:x}"),
+                3 => format!("0x+000{o:X}"),
+                4 => format!("{o:x}"),
+                5 => format!("0X{o:x}"),
+                6 => format!("{o}"),
+                7 => format!("0x{o:x}g"),
+                8 => "0x".to_string(),
+                9 => "0x+".to_string(),
+                10 => format!("0x-{o:x}"),
+                11 => format!("0x1{o:08x}"),
+                12 => format!(" 0x{o:x}"),
+                13 => format!("0x{o:x} "),
+                14 => format!("0x{o:x}_0"),
+                15 => format!("0x++{o:x}"),
+                16 => format!("+0x{o:x}"),
+                _ => format!("0x{:x}", o as u64 + (1u64 << 32)),
+            };
+            lines.push(format!("reqx {} = {} {} offset-string", hx(&m.debug_name), hx(&s), hx(&fname)));
+        }
+        if rng.chance(1, 4) {
+            let n = match rng.below(4) {
+                0 => format!("{}.bak", m.debug_name),
+                1 => String::new(),
+                2 => m.debug_name.to_uppercase() + "x",
+                _ => "nosuch.so".to_string(),
+            };
+            lines.push(format!("reqx {} = {} {} other-name", hx(&n), hx(&good), hx(&fname)));
+        }
+        if rng.chance(1, 4) {
+            let mut id: Vec<char> = m.breakpad_id.chars().collect();
+            id[2] = if id[2] == '7' { '8' } else { '7' };
+            let id: String = id.into_iter().collect();
+            lines.push(format!("reqx {} u{} {} {} unknown-id", hx(&m.debug_name), hx(&id), hx(&good), hx(&fname)));
+        }
+        if rng.chance(1, 6) {
+            let id = match rng.below(4) {
+                0 => String::new(),
+                1 => "xyz".to_string(),
+                2 => "0".repeat(33),
+                _ => format!("G{}", &m.breakpad_id[1..]),
+            };
+            lines.push(format!("reqx {} b{} {} {} bad-id-string", hx(&m.debug_name), hx(&id), hx(&good), hx(&fname)));
+        }
+    }
+    rng.shuffle(&mut lines);
 
     // ---- helper: source store. Keys are the paths of source locations: the raw strings themselves and what
     // the debug file's location makes of them under the case's policy (joined to its directory, `url:`)
@@ -1410,9 +1464,7 @@ fn build_case(rng: &mut Rng, tier: Tier, m: &ModuleSpec, offsets: &[u32], others
         }
     }
     ops.push(store);
-    for (op, o, f, tag) in reqs {
-        ops.push(format!("{op} {o} {} {tag}", hx(&f)));
-    }
+    ops.extend(lines);
     ops
 }
 
@@ -1594,7 +1646,7 @@ impl Prop for C09 {
     fn case_count(&self, tier: Tier) -> u64 {
         match tier {
             Tier::Quick => 700,
-            Tier::Thorough => 9000,
+            Tier::Thorough => 7000,
         }
     }
     fn fixed_cases(&self, tier: Tier) -> Vec<Case> {
@@ -1751,16 +1803,28 @@ impl Prop for C09 {
 
         for l in &ops[5..] {
             let w: Vec<&str> = l.split_whitespace().collect();
-            let offset: Option<u32> = w.get(1).and_then(|s| s.parse().ok());
-            let (offset, fh) = match (offset, w.get(2)) {
-                (Some(o), Some(f)) => (o, *f),
-                _ => {
-                    out.push("bad-op".to_string());
-                    continue;
+            let (file, body, tag_idx) = if w.first() == Some(&"reqx") && w.len() >= 5 {
+                let id = match w[2] {
+                    "=" => m.breakpad_id.clone(),
+                    t => unhx(&t[1..]),
+                };
+                let file = unhx(w[4]);
+                let body = serde_json::json!({"debugName": unhx(w[1]), "debugId": id, "moduleOffset": unhx(w[3]), "file": file}).to_string();
+                (file, body, 5)
+            } else {
+                let offset: Option<u32> = w.get(1).and_then(|s| s.parse().ok());
+                match (offset, w.get(2)) {
+                    (Some(o), Some(f)) => {
+                        let file = unhx(f);
+                        let body = request_body(w[0], &m, o, &file);
+                        (file, body, 3)
+                    }
+                    _ => {
+                        out.push("bad-op".to_string());
+                        continue;
+                    }
                 }
             };
-            let file = unhx(fh);
-            let body = request_body(w[0], &m, offset, &file);
             helper.take_log();
             let r = std::panic::catch_unwind(std::panic::AssertUnwindSafe(|| {
                 futures::executor::block_on(samply_api::Api::new(&sm).query_api("/source/v1", &body))
@@ -1803,7 +1867,7 @@ impl Prop for C09 {
                     }
                 }
             }
-            stats.bump(&format!("req_{}", w.get(3).copied().unwrap_or(w[0])));
+            stats.bump(&format!("req_{}", w.get(tag_idx).copied().unwrap_or(w[0])));
             let cls = line.split_whitespace().nth(1).unwrap_or("?");
             stats.bump(&format!("resp_{}", if cls.starts_with("ok:") { "ok" } else { cls }));
             stats.bump(&format!("source_loads_{nsrc}"));
